@@ -570,6 +570,15 @@ pub fn try_stmt(g: &mut Gen, out: &mut Vec<Stmt>) {
     g.leave();
     g.pop_scope();
     g.pop_try();
+    // a variable declared before the try statement that receives closures over the handler's variable
+    let handler_closure: Option<String> = if has_catch && g.rd.chance(1, 5) {
+        g.label_pub("handler_variable_captured");
+        let h = g.fresh_pub("hc");
+        out.push(Stmt::var(&h, Some(Expr::Nil)));
+        Some(h)
+    } else {
+        None
+    };
     let catch = if has_catch {
         // (the handler variable sometimes takes the name of an outer variable)
         let e = match g.shadowable_name_pub() {
@@ -584,6 +593,22 @@ pub fn try_stmt(g: &mut Gen, out: &mut Vec<Stmt>) {
         g.declare_pub(&e, Kind::Any, false);
         g.enter();
         let mut cb = vec![Stmt::print(Expr::callv("type", vec![Expr::var(&e)]))];
+        if let Some(h) = &handler_closure {
+            // a closure over the handler's variable escapes the handler (and one that writes it, so
+            // that both share the variable after the handler has ended)
+            cb.push(Stmt::expr(Expr::assign_var(
+                h,
+                Expr::TupleLit(vec![
+                    Expr::Lambda(Rc::new(FnDef { name: RefCell::new(String::new()), params: vec![], body: Body::Expr(Box::new(Expr::var(&e))), kind: FnKind::Lambda })),
+                    Expr::Lambda(Rc::new(FnDef {
+                        name: RefCell::new(String::new()),
+                        params: vec!["nv".into()],
+                        body: Body::Expr(Box::new(Expr::assign_var(&e, Expr::var("nv")))),
+                        kind: FnKind::Lambda,
+                    })),
+                ]),
+            )));
+        }
         let n = g.rd.below(3);
         if n > 0 {
             cb.extend(g.stmts(n));
@@ -617,6 +642,20 @@ pub fn try_stmt(g: &mut Gen, out: &mut Vec<Stmt>) {
         None
     };
     out.push(Stmt::new(StmtKind::Try(body, catch, fin)));
+    if let Some(h) = handler_closure {
+        // used after the statement (and after whatever reuses the handler's stack slots)
+        let pad = g.fresh_pub("pad");
+        out.push(Stmt::var(&pad, Some(Expr::VecLit(vec![Expr::str("pad")]))));
+        out.push(Stmt::new(StmtKind::If(
+            Expr::bin(BinOp::Ne, Expr::var(&h), Expr::Nil),
+            vec![
+                Stmt::print(Expr::call(Expr::index(Expr::var(&h), Expr::Num(0.0)), vec![])),
+                Stmt::expr(Expr::call(Expr::index(Expr::var(&h), Expr::Num(1.0)), vec![Expr::str("rewritten")])),
+                Stmt::print(Expr::call(Expr::index(Expr::var(&h), Expr::Num(0.0)), vec![])),
+            ],
+            None,
+        )));
+    }
 }
 
 /// `Fiber.yield` where there may be no fiber to yield from: the rejected yield must leave the
